@@ -2,7 +2,7 @@ from __future__ import annotations
 
 from typing import Union, List, Dict, Set, Tuple
 
-from pagexml.model.coords import Coords, points_to_hull_edges, edges_to_hull_points
+from pagexml.model.coords import Coords, points_to_hull_edges, edges_to_hull_points, collinear_extremes
 from shapely import Polygon
 
 
@@ -178,8 +178,8 @@ def poly_area(points: Union[List[Tuple[int, int]], Coords, PhysicalStructureDoc]
         points = points.points
     elif points is None:
         return 0
-    if len(points) <= 2:
-        # two points represent a line, which has an area of zero
+    if len(points) <= 2 or collinear_extremes(points) is not None:
+        # two points, or more points on one straight line, represent a line, which has an area of zero
         return 0
     hull_edges = points_to_hull_edges(points)
     hull_points = edges_to_hull_points(hull_edges)
